@@ -57,6 +57,7 @@ pub fn run_op(lhs: &str) -> String {
             "fragenc" => ops4::op_fragenc(args),
             "faults" => ops4::op_faults(args),
             "store" => ops5::op_store(args),
+            "flipz" => ops5::op_flipz(args),
             "misc" => ops5::op_misc(args),
             _ => format!("unknown-op {op}"),
         }
